@@ -990,6 +990,7 @@ def _phases(run: common.Run, rng: random.Random, sz: Dict[str, int], root: str, 
             if var == BASE_VAR:
                 var["repeat"] = "1"
             jobs.append((u, var))
+    rng.shuffle(jobs)  # spread the workspaces: default-outdir runs of one workspace are serialised
     futs2 = [(u, var, pool.submit(cli_job, root, u, {k: v for k, v in var.items() if k != "repeat"})) for (u, var) in jobs]
     for u, var, f in futs2:
         r = f.result()
